@@ -153,7 +153,7 @@ def forward_cases(rng, thorough):
     """where a forward is dialled: node-a's address is one of three live listeners; 'addr' re-registers it (from either node),
     'fwd' lets a fresh tunnel wait on node-a and runs the REAL target-side path on node-b, 'ff' lets backend time pass"""
     out = []
-    base = [{"op": "addr", "n": 0, "k": 0}, {"op": "fwd"}, {"op": "fwd"}, {"op": "addr", "n": 0, "k": 1}, {"op": "fwd"},
+    base = [{"op": "addr", "n": 0, "k": 0}, {"op": "fwd"}, {"op": "replay", "k": 0}, {"op": "fwd"}, {"op": "addr", "n": 0, "k": 1}, {"op": "fwd"}, {"op": "replay", "k": 1},
             {"op": "addr", "n": 1, "k": 2}, {"op": "fwd"}, {"op": "ff", "d": 3599001}, {"op": "addr", "n": 0, "k": 2}, {"op": "fwd"},
             {"op": "addr", "n": 0, "k": 0}, {"op": "fwd"}]
     for b in ("memory", "redis", "hybrid", "hybridone"):
@@ -166,8 +166,10 @@ def forward_cases(rng, thorough):
             k = rng.random()
             if k < 0.4:
                 ops.append({"op": "addr", "n": rng.randrange(2), "k": rng.randrange(3)})
-            elif k < 0.9:
+            elif k < 0.8:
                 ops.append({"op": "fwd"})
+            elif k < 0.9:
+                ops.append({"op": "replay", "k": rng.randrange(2)})
             else:
                 ops.append({"op": "ff", "d": rng.choice([3599001, 43200001])})
         ops.append({"op": "fwd"})
@@ -273,7 +275,7 @@ def addr_random(rng, n):
     return out
 
 
-BRIDGE_WAYS = ["abort", "cancel", "complete", "duplicate", "restart"]
+BRIDGE_WAYS = ["abort", "cancel", "complete", "duplicate", "dupother", "restart"]
 
 
 def bridge_cases(rng, thorough):
